@@ -68,6 +68,10 @@ func (c *protoStream) RecvMsg(m interface{}) error {
 		n, err := io.ReadFull(c.Reader, buf[len(buf):end])
 		buf = buf[:len(buf)+n]
 		if err != nil {
+			if err == io.EOF {
+				// the header promised a body: this is not a clean end of the stream
+				err = io.ErrUnexpectedEOF
+			}
 			return err
 		}
 	}
